@@ -458,7 +458,32 @@ def check_constructor(c):
             rr = core.call(lambda: got[path])
             if rr[0] != "ok" or not typed_eq(plain(rr[1]), val):
                 return {"xpath": path, "got": repr(rr)[:200], "want": repr(val)[:200]}
+    # a loaded tree belongs to its caller: after it was edited everywhere, loading the identical text again still gives
+    # the text's value (state a loader keeps between calls must not be reachable through its results)
+    _scribble(got)
+    r2 = core.call(ctor, padded)
+    if r2[0] != "ok" or not typed_eq(plain(r2[1]), ref) or list(r2[1]) != list(ref):
+        return {"second_load_after_edit": repr(r2[1])[:300], "want": repr(ref)[:300]}
     return None
+
+
+def _scribble(v):
+    if isinstance(v, dict):
+        for k in list(dict.keys(v)):
+            x = dict.__getitem__(v, k)  # keys are data here, not xpaths
+            if isinstance(x, (dict, list)):
+                _scribble(x)
+            else:
+                dict.__setitem__(v, k, "#edited#")
+        dict.__setitem__(v, "edited_%d" % len(v), "#edited#")
+    elif isinstance(v, list):
+        for i in range(len(v)):
+            x = list.__getitem__(v, i)
+            if isinstance(x, (dict, list)):
+                _scribble(x)
+            else:
+                list.__setitem__(v, i, "#edited#")
+        list.append(v, "#edited#")
 
 
 # ---------------------------------------------------------------------------
